@@ -13,6 +13,7 @@ open ML
 
 noncomputable instance : Scalar ℝ where
   ofNat := fun n => (n : ℝ)
+  below := fun x => x - 1
   decLt := fun _ _ => Classical.propDecidable _
   decLe := fun _ _ => Classical.propDecidable _
 
